@@ -95,7 +95,7 @@ func sortShape(x ast.Expr) (kind, name string) {
 		}
 	case "sort.Ints":
 		if identName(call.Args[0]) != "" {
-			return "sortInts", identName(call.Args[0])
+			return "clSortInts", identName(call.Args[0])
 		}
 	case "sort.Sort":
 		if a := inner(call.Args[0], "sort.Reverse"); a != nil {
@@ -358,11 +358,11 @@ func (c *kctx) stmts(list []ast.Stmt, k func(c *kctx) string) string {
 			refuse("statement %s", exprString(n.X))
 		}
 		v, ok := c.vars[name]
-		want := map[string]string{"flip": "segs", "sortInts": "ints", "sortDesc": "ints"}[kind]
+		want := map[string]string{"flip": "segs", "clSortInts": "ints", "sortDesc": "ints"}[kind]
 		if !ok || v.kind != want {
 			refuse("%s of %s, which is not a %s", kind, name, want)
 		}
-		fn := map[string]string{"flip": "List.reverse", "sortInts": "sortInts", "sortDesc": "Gts.Cli.sortDesc"}[kind]
+		fn := map[string]string{"flip": "List.reverse", "clSortInts": "clSortInts", "sortDesc": "Gts.Cli.sortDesc"}[kind]
 		c.fact(kind)
 		var lets []string
 		c.setVar(name, kv{kind: want, term: fmt.Sprintf("(%s %s)", fn, v.term)}, &lets, false)
@@ -401,7 +401,7 @@ func (c *kctx) assignStmt(n *ast.AssignStmt, rest []ast.Stmt, k func(c *kctx) st
 				if v := c.expr(n.Rhs[0], &pre); v.kind != "nil" {
 					refuse("a value other than nil is stored in the set %s", name)
 				}
-				c.setVar(name, kv{kind: "intset", term: fmt.Sprintf("(goSetAdd %s %s)", cur.term, key)}, &lets, false)
+				c.setVar(name, kv{kind: "intset", term: fmt.Sprintf("(clSetAdd %s %s)", cur.term, key)}, &lets, false)
 				return kwrap(pre, kjoin(lets, c.stmts(rest, k)))
 			}
 			ek, isList := kElem[cur.kind]
@@ -416,7 +416,7 @@ func (c *kctx) assignStmt(n *ast.AssignStmt, rest []ast.Stmt, k func(c *kctx) st
 			} else if v.kind != ek {
 				refuse("element assignment of a %s to a %s", v.kind, cur.kind)
 			}
-			pre = append(pre, kbind{kLeanName(name), fmt.Sprintf("goPut %s %s %s", cur.term, idx, el)})
+			pre = append(pre, kbind{kLeanName(name), fmt.Sprintf("clPut %s %s %s", cur.term, idx, el)})
 			c.vars[name] = kv{kind: cur.kind, term: kLeanName(name)}
 			return kwrap(pre, c.stmts(rest, k))
 		}
@@ -720,7 +720,7 @@ func (c *kctx) rangeLoop(n *ast.RangeStmt, rest []ast.Stmt, k func(c *kctx) stri
 		return strings.Join(append(parts, c2.stateExprs(state)...), " ")
 	})
 	if live && valName != "" {
-		bodyText = fmt.Sprintf("(match goAt %s %s with\n| none => none\n| some %s =>\n%s)", en.vars[identName(n.X)].term, counter, kLeanName(valName), bodyText)
+		bodyText = fmt.Sprintf("(match clAt %s %s with\n| none => none\n| some %s =>\n%s)", en.vars[identName(n.X)].term, counter, kLeanName(valName), bodyText)
 	}
 	head := name + kGArgs
 	if len(fargs) > 0 {
